@@ -275,6 +275,12 @@ Definition wf_message (m : message) : bool :=
   wf_opt (m_ssid m) && wf_text (m_from m) && wf_text (m_to m) && wf_text (m_protocol m)
   && (m_round m <? 65536) && wf_opt (m_data m) && wf_opt (m_bv m).
 
+Definition nonempty (b : bytes) : bool := match b with [] => false | _ => true end.
+(* a message some session can have produced: it names its sender and its protocol, and its party ids are valid
+   UTF-8 (round.NewSession refuses other ids) *)
+Definition real_message (m : message) : bool :=
+  wf_message m && nonempty (m_from m) && nonempty (m_protocol m).
+
 (* field decoders of cbor.Unmarshal into a struct field that currently holds [old]:
    null sets a slice to nil and leaves strings, integers and booleans untouched *)
 Definition fld_bytes (v : cbor) : option (option bytes) :=
@@ -319,9 +325,19 @@ Definition message_decode (m0 : message) (bs : bytes) : option message :=
   | None => None
   end.
 
-(* Message.UnmarshalBinary: (receiver afterwards, error reported?).  Since fix 3cad471 the decoding error is
-   returned ("return err"); the receiver is left as it was in that case. *)
+(* Message.UnmarshalBinary: (receiver afterwards, error reported?).
+   - the data is decoded into a FRESH struct (not into a copy of the receiver's fields);
+   - a decoding error is returned (fix 3cad471); the receiver is left as it was;
+   - a decoded message without sender or protocol (CBOR null, an empty map, ...) is refused. *)
 Definition message_unmarshal (m0 : message) (bs : bytes) : message * bool :=
+  match message_decode empty_message bs with
+  | Some m => if nonempty (m_from m) && nonempty (m_protocol m) then (m, false) else (m0, true)
+  | None => (m0, true)
+  end.
+
+(* between fix 3cad471 and the patch that refuses empty messages: the error was returned, but the data was decoded
+   into a copy of the receiver's fields and nothing else was checked (null / {} gave an empty message, nil error) *)
+Definition message_unmarshal_v1 (m0 : message) (bs : bytes) : message * bool :=
   match message_decode m0 bs with
   | Some m => (m, false)
   | None => (m0, true)
@@ -879,8 +895,28 @@ Fixpoint shares_of_pairs (l : list (cbor * cbor)) : option (list (bytes * point)
   | _ => None
   end.
 
+(* Go keeps one entry per map key (the last one written) *)
+Definition has_share (id : bytes) (l : list (bytes * point)) : bool :=
+  existsb (fun e => bytes_eqb (fst e) id) l.
+Fixpoint dedup_last (l : list (bytes * point)) : list (bytes * point) :=
+  match l with
+  | [] => []
+  | e :: r => if has_share (fst e) r then dedup_last r else e :: dedup_last r
+  end.
+Definition shares_ok (l : list (bytes * point)) : bool :=
+  forallb (fun e => negb (is_identity (snd e))) l.
+
+(* PointMap.UnmarshalBinary on the content of a byte string; null = nil map, then an empty Points *)
+Definition pointmap_of_bytes (b : bytes) : option (list (bytes * point)) :=
+  match decode b with
+  | Some (CMap l, _) => option_map dedup_last (shares_of_pairs l)
+  | Some (CNull, _) => Some []
+  | _ => None
+  end.
+
 Definition frost_of_tree (t : cbor) : outcome frost_config :=
   match t with
+  | CNull => Ok (mkFrost [] 0 0 None None [])      (* null into the struct: nothing happens *)
   | CMap [ (CText k1, v1); (CText k2, v2); (CText k3, v3); (CText k4, v4); (CText k5, v5); (CText k6, v6) ] =>
       if bytes_eqb k1 k_id && bytes_eqb k2 k_threshold && bytes_eqb k3 k_privateshare
          && bytes_eqb k4 k_publickey && bytes_eqb k5 k_chainkey && bytes_eqb k6 k_vshares
@@ -888,13 +924,8 @@ Definition frost_of_tree (t : cbor) : outcome frost_config :=
         if is_panic (fld_scalar v3) || is_panic (fld_point v4) then Panic else
         match fld_text [] v1, fld_int 0 v2, out_opt (fld_scalar v3), out_opt (fld_point v4), fld_bytes v5,
               match v6 with
-              | CBytes b =>
-                  match decode b with
-                  | Some (CMap l, _) => shares_of_pairs l
-                  | Some (CNull, _) => Some []   (* PointMap.UnmarshalBinary: a nil map, then an empty Points *)
-                  | _ => None
-                  end
-              | CNull => Some []           (* the *PointMap becomes nil *)
+              | CBytes b => pointmap_of_bytes b
+              | CNull => Some []           (* the *PointMap becomes nil: "missing fields" *)
               | _ => None
               end with
         | Some id, Some th, Some x, Some Y, Some ck, Some sh => Ok (mkFrost id th x Y ck sh)
@@ -904,9 +935,31 @@ Definition frost_of_tree (t : cbor) : outcome frost_config :=
   | _ => Err 100
   end.
 
-(* what frost.EmptyConfig + cbor.Unmarshal accept: everything that decodes *)
+(* keygen.Config.Validate (the nil checks are covered: a nil share map is modelled as the empty one, which fails the
+   threshold test just the same) *)
+Definition frost_validate (c : frost_config) : bool :=
+  negb (f_share c =? 0) && negb (is_identity (f_public c))
+  && (0 <=? f_threshold c) && (f_threshold c <=? Z.of_nat (length (f_shares c)) - 1)
+  && has_share (f_id c) (f_shares c) && shares_ok (f_shares c).
+
+(* keygen.Config.UnmarshalCBOR: default decoding into the receiver made by EmptyConfig, under a recover, then
+   Validate.  Err 1 decoding error, Err 2 invalid, Err 18 recovered panic, Err 100 outside the modelled shape *)
+Definition validated {A} (valid : A -> bool) (o : outcome A) : outcome A :=
+  match recovered o with
+  | Ok a => if valid a then Ok a else Err 2
+  | r => r
+  end.
+
 Definition frost_unmarshal (bs : bytes) : outcome frost_config :=
   match decode bs with
+  | Some (t, _) => validated frost_validate (frost_of_tree t)
+  | None => Err 1
+  end.
+
+(* before the patch: plain cbor.Unmarshal, no validation at all, panics reach the caller *)
+Definition frost_unmarshal_v0 (bs : bytes) : outcome frost_config :=
+  match decode bs with
+  | Some (CNull, _) => Err 100
   | Some (t, _) => frost_of_tree t
   | None => Err 1
   end.
@@ -916,3 +969,220 @@ Definition valid_frost (c : frost_config) : Prop :=
   0 <= f_threshold c <= Z.of_nat (length (f_shares c)) - 1 /\
   NoDup (map fst (f_shares c)) /\ In (f_id c) (map fst (f_shares c)) /\
   Forall (fun e => valid_point (snd e)) (f_shares c).
+
+(* ------------------------------------------------------------------------------------------------ *)
+(* 8. the other stored types, each restored by its validating UnmarshalCBOR (default decoding under a recover,
+      then Validate)                                                                                     *)
+
+(* ---- frost keygen.TaprootConfig: concrete pointer types (null = nil, no panic); VerificationShares is a CBOR
+        map id -> point directly; PublicKey is the 32-byte x-only key ---- *)
+Record taproot_config := mkTaproot {
+  t_id : bytes;
+  t_threshold : Z;
+  t_share : option Z;
+  t_public : option bytes;
+  t_chain : option bytes;
+  t_shares : list (bytes * point) }.
+
+Definition fld_scalar_ptr (v : cbor) : option (option Z) :=
+  match v with
+  | CBytes b => match scalar_decode b with Some s => Some (Some s) | None => None end
+  | CNull => Some None
+  | _ => None
+  end.
+
+Definition taproot_of_tree (t : cbor) : outcome taproot_config :=
+  match t with
+  | CNull => Ok (mkTaproot [] 0 None None None [])
+  | CMap [ (CText k1, v1); (CText k2, v2); (CText k3, v3); (CText k4, v4); (CText k5, v5); (CText k6, v6) ] =>
+      if bytes_eqb k1 k_id && bytes_eqb k2 k_threshold && bytes_eqb k3 k_privateshare
+         && bytes_eqb k4 k_publickey && bytes_eqb k5 k_chainkey && bytes_eqb k6 k_vshares
+      then
+        match fld_text [] v1, fld_int 0 v2, fld_scalar_ptr v3, fld_bytes v4, fld_bytes v5,
+              match v6 with
+              | CMap l => option_map dedup_last (shares_of_pairs l)
+              | CNull => Some []
+              | _ => None
+              end with
+        | Some id, Some th, Some x, Some Y, Some ck, Some sh => Ok (mkTaproot id th x Y ck sh)
+        | _, _, _, _, _, _ => Err 1
+        end
+      else Err 100
+  | _ => Err 100
+  end.
+
+(* Secp256k1.LiftX succeeds *)
+Definition liftable (b : bytes) : bool :=
+  match lift_x (Z_of_bytes b) with Some (Some _) => true | _ => false end.
+
+Definition taproot_validate (c : taproot_config) : bool :=
+  match t_share c, t_public c with
+  | Some x, Some pk =>
+      negb (x =? 0) && Nat.eqb (length pk) 32 && liftable pk
+      && (0 <=? t_threshold c) && (t_threshold c <=? Z.of_nat (length (t_shares c)) - 1)
+      && has_share (t_id c) (t_shares c) && shares_ok (t_shares c)
+  | _, _ => false
+  end.
+
+Definition taproot_unmarshal (bs : bytes) : outcome taproot_config :=
+  match decode bs with
+  | Some (t, _) => validated taproot_validate (taproot_of_tree t)
+  | None => Err 1
+  end.
+
+Definition valid_taproot (c : taproot_config) : Prop :=
+  (exists x, t_share c = Some x /\ 0 < x < secp_q) /\
+  (exists pk, t_public c = Some pk /\ length pk = 32%nat /\ liftable pk = true) /\
+  0 <= t_threshold c <= Z.of_nat (length (t_shares c)) - 1 /\
+  NoDup (map fst (t_shares c)) /\ In (t_id c) (map fst (t_shares c)) /\
+  Forall (fun e => valid_point (snd e)) (t_shares c).
+
+(* ---- doerner keygen.ConfigReceiver / ConfigSender: Setup is a byte string of fixed length (the explicit setup
+        marshalling), 2*128*16 bytes for the receiver and 16 + 128*16 for the sender ---- *)
+Record doerner_config := mkDoerner {
+  d_setup : option bytes;
+  d_share : Z;
+  d_public : point;
+  d_chain : option bytes }.
+
+Definition k_setup := tstr "Setup"%string.
+Definition k_secretshare := tstr "SecretShare"%string.
+Definition k_public_d := tstr "Public"%string.
+
+Definition setup_len_receiver : nat := 4096.
+Definition setup_len_sender : nat := 2064.
+
+Definition doerner_of_tree (setup_len : nat) (t : cbor) : outcome doerner_config :=
+  match t with
+  | CNull => Ok (mkDoerner None 0 None None)
+  | CMap [ (CText k1, v1); (CText k2, v2); (CText k3, v3); (CText k4, v4) ] =>
+      if bytes_eqb k1 k_setup && bytes_eqb k2 k_secretshare && bytes_eqb k3 k_public_d && bytes_eqb k4 k_chainkey
+      then
+        if is_panic (fld_scalar v2) || is_panic (fld_point v3) then Panic else
+        match match v1 with
+              | CBytes b => if Nat.eqb (length b) setup_len then Some (Some b) else None
+              | CNull => Some None
+              | _ => None
+              end,
+              out_opt (fld_scalar v2), out_opt (fld_point v3), fld_bytes v4 with
+        | Some st, Some x, Some Y, Some ck => Ok (mkDoerner st x Y ck)
+        | _, _, _, _ => Err 1
+        end
+      else Err 100
+  | _ => Err 100
+  end.
+
+Definition chain_ok (ck : option bytes) : bool :=
+  match ck with Some b => Nat.eqb (length b) sec_bytes | None => false end.
+
+Definition doerner_validate (c : doerner_config) : bool :=
+  match d_setup c with
+  | Some _ => negb (d_share c =? 0) && negb (is_identity (d_public c)) && chain_ok (d_chain c)
+  | None => false
+  end.
+
+Definition doerner_unmarshal (setup_len : nat) (bs : bytes) : outcome doerner_config :=
+  match decode bs with
+  | Some (t, _) => validated doerner_validate (doerner_of_tree setup_len t)
+  | None => Err 1
+  end.
+
+Definition valid_doerner (setup_len : nat) (c : doerner_config) : Prop :=
+  (exists st, d_setup c = Some st /\ length st = setup_len) /\
+  0 < d_share c < secp_q /\ valid_point (d_public c) /\ valid_rid (d_chain c).
+
+(* ---- ecdsa.Signature ---- *)
+Definition k_R := tstr "R"%string.
+Definition k_RBar := tstr "RBar"%string.
+Definition k_KShare := tstr "KShare"%string.
+Definition k_ChiShare := tstr "ChiShare"%string.
+
+Definition signature_of_tree (t : cbor) : outcome (point * Z) :=
+  match t with
+  | CNull => Ok (None, 0)
+  | CMap [ (CText k1, v1); (CText k2, v2) ] =>
+      if bytes_eqb k1 k_R && bytes_eqb k2 k_S then
+        if is_panic (fld_point v1) || is_panic (fld_scalar v2) then Panic else
+        match out_opt (fld_point v1), out_opt (fld_scalar v2) with
+        | Some R, Some s => Ok (R, s)
+        | _, _ => Err 1
+        end
+      else Err 100
+  | _ => Err 100
+  end.
+
+Definition signature_validate (sg : point * Z) : bool :=
+  negb (is_identity (fst sg)) && negb (snd sg =? 0).
+
+Definition signature_unmarshal (bs : bytes) : outcome (point * Z) :=
+  match decode bs with
+  | Some (t, _) => validated signature_validate (signature_of_tree t)
+  | None => Err 1
+  end.
+
+Definition valid_signature (sg : point * Z) : Prop := valid_point (fst sg) /\ 0 < snd sg < secp_q.
+
+(* ---- ecdsa.PreSignature ---- *)
+Record presig := mkPresig {
+  ps_id : option bytes;
+  ps_R : point;
+  ps_RBar : option (list (bytes * point));     (* None = nil *PointMap *)
+  ps_S : option (list (bytes * point));
+  ps_k : Z;
+  ps_chi : Z }.
+
+Definition fld_pointmap (v : cbor) : option (option (list (bytes * point))) :=
+  match v with
+  | CBytes b => option_map Some (pointmap_of_bytes b)
+  | CNull => Some None
+  | _ => None
+  end.
+
+Definition presig_of_tree (t : cbor) : outcome presig :=
+  match t with
+  | CNull => Ok (mkPresig None None (Some []) (Some []) 0 0)   (* the receiver made by EmptyPreSignature, untouched *)
+  | CMap [ (CText k1, v1); (CText k2, v2); (CText k3, v3); (CText k4, v4); (CText k5, v5); (CText k6, v6) ] =>
+      if bytes_eqb k1 k_id && bytes_eqb k2 k_R && bytes_eqb k3 k_RBar && bytes_eqb k4 k_S
+         && bytes_eqb k5 k_KShare && bytes_eqb k6 k_ChiShare
+      then
+        if is_panic (fld_point v2) || is_panic (fld_scalar v5) || is_panic (fld_scalar v6) then Panic else
+        match fld_bytes v1, out_opt (fld_point v2), fld_pointmap v3, fld_pointmap v4,
+              out_opt (fld_scalar v5), out_opt (fld_scalar v6) with
+        | Some id, Some R, Some rb, Some sm, Some k, Some chi => Ok (mkPresig id R rb sm k chi)
+        | _, _, _, _, _, _ => Err 1
+        end
+      else Err 100
+  | _ => Err 100
+  end.
+
+Definition find_share (id : bytes) (l : list (bytes * point)) : option point :=
+  match find (fun e => bytes_eqb (fst e) id) l with Some e => Some (snd e) | None => None end.
+
+(* PreSignature.Validate + "at least one signer" *)
+Definition presig_validate (p : presig) : bool :=
+  match ps_RBar p, ps_S p with
+  | Some rb, Some sm =>
+      Nat.eqb (length rb) (length sm)
+      && forallb (fun e => negb (is_identity (snd e))
+                           && match find_share (fst e) sm with
+                              | Some Sj => negb (is_identity Sj)
+                              | None => false end) rb
+      && negb (is_identity (ps_R p))
+      && match ps_id p with Some b => Nat.eqb (length b) sec_bytes && negb (all_zero b) | None => false end
+      && negb (ps_chi p =? 0) && negb (ps_k p =? 0)
+      && negb (Nat.eqb (length rb) 0)
+  | _, _ => false
+  end.
+
+Definition presig_unmarshal (bs : bytes) : outcome presig :=
+  match decode bs with
+  | Some (t, _) => validated presig_validate (presig_of_tree t)
+  | None => Err 1
+  end.
+
+Definition valid_presig (p : presig) : Prop :=
+  exists rb sm, ps_RBar p = Some rb /\ ps_S p = Some sm /\
+    length rb = length sm /\ rb <> [] /\
+    (forall id Rj, In (id, Rj) rb -> valid_point Rj /\ exists Sj, find_share id sm = Some Sj /\ valid_point Sj) /\
+    valid_point (ps_R p) /\ valid_rid (ps_id p) /\ nonzero_rid (ps_id p) /\
+    0 < ps_k p < secp_q /\ 0 < ps_chi p < secp_q.
